@@ -106,8 +106,39 @@ PROPS = {
         "trusted_base": TB_COMMON + ["str::from_utf8 (only valid UTF-8 reaches the parser); the model works on bytes and splits only at ASCII"],
         "assumptions": ["the hand-written Lean model corresponds to the Rust source: checked by running both on the same generated cases, not proved"],
     },
+    "C04": {
+        "rule": "every scale in [-40,60] x every digit length 1..40 x {random, all nines, power of ten} x both signs, zero with every scale in that range, through the ten renderings "
+                "(Display on value / to_string / reference, {:e}, {:E} on value and reference, scientific, engineering, plain) - all ten in thorough, three seed-chosen per decimal in quick; "
+                "random decimals of 1..3000 digits with scales up to +-10^15, 0.000ddd around the leading-zero threshold, integers around the trailing-zero threshold. For each: exact text "
+                "vs the model; the text is read by the grammar specification and by the real parser: equal value, identical (int, scale) except engineering / Display with scale in "
+                "[-high,-1], Display length <= digits + thresholds + 30. Non-trivial = non-zero.",
+        "trusted_base": TB_COMMON + ["core::fmt::Formatter::pad_integral (small model, tied by correspondence)"],
+        "assumptions": ASSUME_COMMON,
+    },
+    "C16": {
+        "rule": "small scope |unscaled| < 10^5 x scales -3..8 x N 0..9 through {:.N} and {:.Ne} (complete in thorough, 1/37 slice in quick); random decimals up to 300 digits, scales -1100..400, "
+                "N in 0..1100 incl. N around the padding limit, cut tails 5000..0/4999..9/0..01/9..9 (ties, carries into a new integer digit, values below half a unit), both signs; every "
+                "combination of fill in {space,*} x align in {none,<,>,^} x '+' x '0' x width 0..39 x {Display, e, E}. Checks: exact text vs model; flags = pad_integral applied to the "
+                "implementation's own unflagged text; the unflagged text parses (grammar spec) to the value rounded by the declarative rounding at N fraction digits / N+1 significant digits "
+                "with exactly that many digits; over-padding case stays exact. Non-trivial = non-zero.",
+        "trusted_base": TB_COMMON + ["core::fmt::Formatter::pad_integral (small model, tied by correspondence)"],
+        "assumptions": ASSUME_COMMON,
+    },
 }
 
 
+def _dec_scale(rec, field_index):
+    """scale of the decimal in tab-separated input field `field_index` (prop, op, args...)"""
+    try:
+        f = rec.get("input", "").split("\t")
+        return int(f[field_index].split("@")[1])
+    except Exception:
+        return None
+
+
 def predicate(name, rec):
+    if name == "plain_negscale_rep_only":
+        # C04 known finding: plain notation, negative scale, only the representation changed
+        sc = _dec_scale(rec, 3)
+        return sc is not None and sc < 0 and rec.get("note", "").startswith("representation changed")
     return False
